@@ -87,7 +87,7 @@ pub fn c02_value_namelang(inp: &mut Inp) {
     value_total_lang(inp, 0x36, 8)
 }
 
-//@ {"tier":"thorough","unwind":14,"desc":"IppValue::parse for EVERY other tag byte 0x00..=0xff (strings, out-of-band, collection markers, unregistered): every length 0..=6, every body","sym":"tag byte (all 256 minus the 8 structured ones, which have their own harness), 6 body bytes; len enumerated 0..=6"}
+//@ {"tier":"experimental","unwind":14,"desc":"IppValue::parse for EVERY other tag byte 0x00..=0xff (strings, out-of-band, collection markers, unregistered): every length 0..=6, every body","sym":"tag byte (all 256 minus the 8 structured ones, which have their own harness), 6 body bytes; len enumerated 0..=6"}
 pub fn c02_value_anytag(inp: &mut Inp) {
     let tag = inp.u8();
     assume(tag != 0x21 && tag != 0x23 && tag != 0x22 && tag != 0x33 && tag != 0x31 && tag != 0x32 && tag != 0x35 && tag != 0x36);
